@@ -109,7 +109,7 @@ func genC11(t *rapid.T) c11Case {
 	}
 	c := c11Case{S: s, Near: nearMisses(s)}
 	c.Op = rapid.SampledFrom([]string{"=", "!=", "in", "notin", "contains", "notcontains", "anyof=", "anyofin", "allof!=", "anyofcontains", "inlong-low", "inlong-high", "notinlong-high",
-		"icontains", "noticontains", "anyof=or-anyofcontains", "anyof=and-anyofin", "anyofin-or-anyofin"}).Draw(t, "op")
+		"icontains", "noticontains", "anyof=or-anyofcontains", "anyof=and-anyofin", "anyofin-or-anyofin", "dotted=", "dotted!=", "tag=", "tagcontains"}).Draw(t, "op")
 	c.Other = genC11String(t, "other")
 	return c
 }
@@ -151,12 +151,19 @@ func runC11(c c11Case) kit.Result {
 		if i%2 == 1 {
 			roles = append(roles, values[(i+1)%len(values)])
 		}
-		d.People = append(d.People, kit.Person{ID: fmt.Sprintf("p%02d", i), F: map[string]kit.Val{"sa": kit.SV(v)}, Roles: kit.StrSet{Present: true, Elems: roles}})
+		p := kit.Person{ID: fmt.Sprintf("p%02d", i), F: map[string]kit.Val{"sa": kit.SV(v)}, Roles: kit.StrSet{Present: true, Elems: roles},
+			// the value also sits in a tag, and every row's boss is the row before it (the first row has none)
+			Tags: map[string]kit.Val{"k": kit.SV(v)}}
+		if i > 0 {
+			p.F["boss"] = kit.SV(fmt.Sprintf("p%02d", i-1))
+		}
+		d.People = append(d.People, p)
 	}
 	d.People = append(d.People, kit.Person{ID: "pnull", F: map[string]kit.Val{"sa": kit.NullV()}, Roles: kit.StrSet{Present: true, Elems: []string{c.S + "x", "zz"}}})
 	d.People = append(d.People, kit.Person{ID: "pboth", F: map[string]kit.Val{"sa": kit.NullV()}, Roles: kit.StrSet{Present: true, Elems: []string{c.S, "zz", "~~~last"}}})
 
 	var filter string
+	var wantID func(id string) bool
 	var want func(v *string) bool
 	var wantSet func(elems []string) bool
 	has := func(elems []string, x string) bool {
@@ -210,6 +217,40 @@ func runC11(c c11Case) kit.Result {
 	case "noticontains":
 		filter = "sa not icontains " + lit
 		want = func(v *string) bool { return v == nil || !strings.Contains(strings.ToUpper(*v), strings.ToUpper(c.S)) }
+	case "dotted=", "dotted!=", "tag=", "tagcontains":
+		// the compared value is reached through a reference (boss.sa) or is an element of the tag map (tags.k)
+		bossOf := func(id string) *string {
+			for i := range values {
+				if fmt.Sprintf("p%02d", i) == id && i > 0 {
+					s := values[i-1]
+					return &s
+				}
+			}
+			return nil
+		}
+		tagOf := func(id string) *string {
+			for i := range values {
+				if fmt.Sprintf("p%02d", i) == id {
+					s := values[i]
+					return &s
+				}
+			}
+			return nil
+		}
+		switch c.Op {
+		case "dotted=":
+			filter = "boss.sa = " + lit
+			wantID = func(id string) bool { v := bossOf(id); return v != nil && *v == c.S }
+		case "dotted!=":
+			filter = "boss.sa != " + lit
+			wantID = func(id string) bool { v := bossOf(id); return v == nil || *v != c.S }
+		case "tag=":
+			filter = "tags.k = " + lit
+			wantID = func(id string) bool { v := tagOf(id); return v != nil && *v == c.S }
+		default:
+			filter = "tags.k contains " + lit
+			wantID = func(id string) bool { v := tagOf(id); return v != nil && strings.Contains(*v, c.S) }
+		}
 	case "=":
 		filter = "sa = " + lit
 		want = func(v *string) bool { return v != nil && *v == c.S }
@@ -257,7 +298,7 @@ func runC11(c c11Case) kit.Result {
 			s := v.S
 			vp = &s
 		}
-		if (want != nil && want(vp)) || (wantSet != nil && wantSet(p.Roles.Elems)) {
+		if (want != nil && want(vp)) || (wantSet != nil && wantSet(p.Roles.Elems)) || (wantID != nil && wantID(p.ID)) {
 			expect = append(expect, p.ID)
 		}
 	}
@@ -304,7 +345,8 @@ func runC11(c c11Case) kit.Result {
 	// route B: bolt store
 	db := kit.NewRawDB()
 	defer db.Close()
-	schema := kit.NewScanSchema(0)
+	// (half of the time the symbols sa and tags are registered under a bucket key that differs from their name)
+	schema := kit.NewScanSchema(len(c.S) % 2)
 	if err := schema.Write(db.DB, d); err != nil {
 		res.Err = fmt.Errorf("writing dataset: %v", err)
 		return res
